@@ -265,6 +265,10 @@ def runLine (st : Session) (line : String) : Session × String := Id.run do
     let e := parseEasing w[1]!
     let outs := (w.toList.drop 2).map fun t => bits (e.calc (fb t))
     return (st, " ".intercalate outs)
+  | "easeraw" =>
+    let n := ((w[1]!).drop 1).toNat!
+    let outs := (w.toList.drop 2).map fun t => bits (customEasing n (fb t) : F)
+    return (st, " ".intercalate outs)
   | "easepub" =>
     let outs := (w.toList.drop 2).map fun t => match Spec.parametricPublished w[1]! (fb t) with | some y => bits y | none => "?"
     return (st, " ".intercalate outs)
@@ -452,9 +456,9 @@ def runLine (st : Session) (line : String) : Session × String := Id.run do
           | [] => none)
         | _ => none
     let fields : List DField := (w.toList.drop 5).filterMap fun f => match f.splitOn ":" with
-      | [n, t, a] => some ⟨n, t.replace "~" "::", a == "a"⟩
+      | [n, t, a] => some ⟨n, t.replace "~" "::", a == "a" || a == "A"⟩
       | n :: rest => (match rest.reverse with
-        | a :: tyRev => some ⟨n, (":".intercalate tyRev.reverse).replace "~" "::", a == "a"⟩
+        | a :: tyRev => some ⟨n, (":".intercalate tyRev.reverse).replace "~" "::", a == "a" || a == "A"⟩
         | [] => none)
       | _ => none
     match expandDerive { name := w[3]!, vis := vis, kind := kind, fields := fields, attrs := attrs } with
